@@ -9,10 +9,8 @@
                                       StoreMessagePerUserWithSharedDBAndS3 (the part loop:
                                       threshold rule and the S3-ok / DB-error / S3-error /
                                       local-error branches),
-                                      ReconstructMessageWithSharedDBAndS3 (single part),
-                                      writePartContentWithS3
-      internal/server/message/fetch.go  BODY[n] of a leaf part
-                                      (the three read sites share one shape: [read_part])
+                                      ReadPartContent (used by ReconstructMessageWithSharedDBAndS3,
+                                      writePartContentWithS3 and fetch.go BODY[n]: [read_part])
 
     Abstractions.  [key enc content] stands for hex(sha256(decodeContentForHashing
     content enc)) — the UNIQUE column blobs.sha256_hash; [okey content] stands
@@ -164,46 +162,55 @@ Definition store_msg (s3on : bool) (w : world) (ps : list part) (o d : oracle) :
   let '(rows, w') := store_parts s3on w ps o d [] in
   mkW (w_blobs w') (w_objs w') (w_msgs w' ++ [rows]) (w_log w').
 
-(** the read shape shared by fetch.go (BODY[n]), Reconstruct... (single part)
-    and writePartContentWithS3:
-      blob_id set: GetBlob; if err == nil && content != "" => content
-                   else if READER has S3: GetBlobS3BlobID; type s3 and name != "" => Retrieve;
-                        err => nothing
-      else text_content.
-    Every failure ends in the empty string.  Result: content, rest of the oracle, requests. *)
+(** parser.ReadPartContent, the one read path used by fetch.go (BODY[n]),
+    ReconstructMessageWithSharedDBAndS3 (single part) and writePartContentWithS3:
+      blob_id not set: text_content
+      GetBlob: error => error; content != "" => content
+      GetBlobS3BlobID: type not s3 => "" (an empty local blob);
+                       name == "" => error; READER without S3 => error;
+                       Retrieve: error (5xx, dropped connection, missing object) => error.
+    [None] = the error is returned (FETCH answers NO).
+    Result: content or error, rest of the oracle, requests. *)
 Definition read_part (s3on : bool) (w : world) (row : partrow) (o : oracle)
-  : str * oracle * list req :=
+  : option str * oracle * list req :=
   match r_blob row with
-  | None => (r_text row, o, [])
+  | None => (Some (r_text row), o, [])
   | Some id =>
       match get_blob (w_blobs w) id with
-      | None => ([], o, [])
+      | None => (None, o, [])
       | Some b =>
           match b_form b with
-          | FLocal c => (c, o, [])
+          | FLocal c => (Some c, o, [])
           | FS3 k =>
-              if s3on then
-                match k with
-                | [] => ([], o, [])
-                | _ => let '(g, o') := take o in
-                       match g with
-                       | OOk => (match lookup (w_objs w) k with Some c => c | None => [] end, o', [RGet k])
-                       | OFail => ([], o', [RGet k])
-                       end
-                end
-              else ([], o, [])
+              match k with
+              | [] => (None, o, [])
+              | _ =>
+                  if s3on then
+                    let '(g, o') := take o in
+                    match g with
+                    | OOk => (lookup (w_objs w) k, o', [RGet k])
+                    | OFail => (None, o', [RGet k])
+                    end
+                  else (None, o, [])
+              end
           end
       end
   end.
 
-(** all parts of a message in part order (what one FETCH BODY[] does) *)
+(** all parts of a message in part order (what one FETCH BODY[] does); the
+    first unreadable part fails the whole reconstruction, later parts are not read *)
 Fixpoint read_rows (s3on : bool) (w : world) (rows : list partrow) (o : oracle)
-  : list str * list req :=
+  : option (list str) * list req :=
   match rows with
-  | [] => ([], [])
-  | r :: rest => let '(c, o', lg) := read_part s3on w r o in
-                 let '(cs, lg') := read_rows s3on w rest o' in
-                 (c :: cs, lg ++ lg')
+  | [] => (Some [], [])
+  | r :: rest =>
+      let '(c, o', lg) := read_part s3on w r o in
+      match c with
+      | None => (None, lg)
+      | Some c =>
+          let '(cs, lg') := read_rows s3on w rest o' in
+          (option_map (cons c) cs, lg ++ lg')
+      end
   end.
 
 (** histories *)
@@ -219,42 +226,42 @@ Definition step (w : world) (e : event) : world :=
 
 Definition run (evs : list event) : world := fold_left step evs w0.
 
-(** ---- finding classes (decidable, on the history's state and the read) *)
-Inductive finding := DedupEncoding | ConfigMismatch | ReadFault.
+(** ---- the backend failed for this read: the blob lives in the object
+    store and the reader has no S3, or the GET fails, or the object is gone *)
+Definition read_failed (s3on : bool) (w : world) (row : partrow) (o : oracle) : bool :=
+  match r_blob row with
+  | None => false
+  | Some id =>
+      match get_blob (w_blobs w) id with
+      | None => false
+      | Some b =>
+          match b_form b with
+          | FLocal _ => false
+          | FS3 k => negb s3on
+                     || (match fst (take o) with OFail => true | OOk => false end)
+                     || negb (has_obj (w_objs w) k)
+          end
+      end
+  end.
+
+(** ---- finding classes (decidable, on the history's state and the row) *)
+Inductive finding := DedupEncoding.
 
 Definition form_is_own (f : form) (own : str) : bool :=
   match f with FLocal c => str_eqb c own | FS3 k => str_eqb k (okey own) end.
 
-(** [classify s3on w row o]: the read of [row] by a reader with S3
-    enabled/disabled, object-store oracle [o], in state [w]:
-    - DedupEncoding: the row points at a blob whose stored form is not this
-      part's text (an earlier writer with the same decoded hash won);
-    - ConfigMismatch: the blob is in the object store and the reader has no S3;
-    - ReadFault: the GET fails or the object is missing. *)
-Definition classify (s3on : bool) (w : world) (row : partrow) (o : oracle) : option finding :=
+(** DedupEncoding: the row points at a blob whose stored form is not this
+    part's text (an earlier writer with the same decoded hash won). *)
+Definition classify (w : world) (row : partrow) : option finding :=
   match r_blob row with
   | None => None
   | Some id =>
       match get_blob (w_blobs w) id with
       | None => None
-      | Some b =>
-          if negb (form_is_own (b_form b) (r_own row)) then Some DedupEncoding
-          else match b_form b with
-               | FLocal _ => None
-               | FS3 k =>
-                   if negb s3on then Some ConfigMismatch
-                   else match fst (take o) with
-                        | OFail => Some ReadFault
-                        | OOk => if has_obj (w_objs w) k then None else Some ReadFault
-                        end
-               end
+      | Some b => if negb (form_is_own (b_form b) (r_own row)) then Some DedupEncoding else None
       end
   end.
 
 End Keyed.
 
-Definition finding_eqb (a b : finding) : bool :=
-  match a, b with
-  | DedupEncoding, DedupEncoding | ConfigMismatch, ConfigMismatch | ReadFault, ReadFault => true
-  | _, _ => false
-  end.
+Definition finding_eqb (a b : finding) : bool := true.
